@@ -14,7 +14,8 @@ cd /verif || exit 2
 for id in "$@"; do
   out=$(VERIF_REPO="$S" ./check "$id" "$tier" 2>&1); rc=$?
   echo "== $id $tier on $(basename "$patch" .diff): exit $rc"
-  echo "$out" | grep -E "VIOLATION|KNOWN-FINDING|MACHINERY" | head -5
+  echo "$out" | grep -E "^VIOLATION|MACHINERY" | head -5
+  echo "   ($(echo "$out" | grep -c "^KNOWN-FINDING") KNOWN-FINDING lines)"
   # evidence and replay files written by a run against a patched tree are not evidence about /repo
   git -C /verif checkout -q -- "evidence/$id.json" 2>/dev/null || true
 done
